@@ -133,6 +133,7 @@ func (n *net) settle(want int) {
 }
 
 type scenarioOut struct {
+	trace2  string
 	trace   string
 	viol    []Violation
 	stats   map[string]int
@@ -196,7 +197,7 @@ func runScenario(seed int64, idx int, kind string) (out scenarioOut) {
 			panic(err)
 		}
 		ab.VerifDetachRepeater()
-		hip, _ := cache.New(4096, 16)
+		hip, _ := cache.New(4096, 128) // 128 KB per shard as on a real node: no capacity eviction at these volumes
 		fl, _ := cache.NewFlash()
 		nw.nodes = append(nw.nodes, &node{idx: i, w: &w, ab: ab, hip: hip, flash: fl, jug: pipe.New(16, 16), cancel: cancel})
 	}
@@ -274,17 +275,87 @@ func runScenario(seed int64, idx int, kind string) (out scenarioOut) {
 	if kind == "poison" {
 		origin = 0
 	}
+	if kind == "burst" {
+		// more awaiting transactions handed to the origin's gossiper at once than its pipe holds (capacity 16): every one must still reach every node
+		on := nw.nodes[origin]
+		ctxB, stopB := context.WithCancel(context.Background())
+		defer stopB()
+		go on.g.RunTransactionGossip(ctxB)
+		const nBurst = 40
+		var hashes [][32]byte
+		for i := 0; i < nBurst; i++ {
+			t, err := transaction.New(fmt.Sprintf("burst-%d", i), spice.New(1, 0), []byte("data"), users[1].Address(), users[0])
+			if err != nil {
+				panic(err)
+			}
+			hashes = append(hashes, t.Hash)
+			pt, _ := transformers.TrxToProtoTrx(t)
+			on.hip.SaveAwaitedTransaction(&t)
+			on.jug.SendTrx(pt)
+		}
+		nw.settle(nBurst * len(adj[origin]))
+		n := 0
+		quiet := func() bool { // nothing in flight: the queue stays empty for 300 ms (forwards are made by goroutines)
+			for k := 0; k < 30; k++ {
+				if nw.qlen() > 0 {
+					return false
+				}
+				time.Sleep(10 * time.Millisecond)
+			}
+			return true
+		}
+		for n < 6000 && !(nw.qlen() == 0 && quiet()) {
+			if nw.qlen() == 0 {
+				continue
+			}
+			nw.mu.Lock()
+			i := rng.Intn(len(nw.queue))
+			m := nw.queue[i]
+			nw.queue = append(nw.queue[:i], nw.queue[i+1:]...)
+			nw.mu.Unlock()
+			before := nw.qlen()
+			func() {
+				defer func() { recover() }()
+				nw.nodes[m.dst].g.Server().GossipTrx(context.Background(), proto.Clone(m.trx).(*protobufcompiled.TrxMsgGossip))
+			}()
+			nw.settle(before)
+			n++
+		}
+		for i := range nw.nodes {
+			trxs, _ := nw.nodes[i].hip.ReadTransactions(users[1].Address())
+			got := map[[32]byte]bool{}
+			for _, t := range trxs {
+				got[t.Hash] = true
+			}
+			missing := 0
+			for _, h := range hashes {
+				if !got[h] {
+					missing++
+				}
+			}
+			if missing > 0 {
+				viol("C11", "burst-items-lost", fmt.Sprintf("node %d never received %d of %d awaiting transactions handed to the origin %d in one burst", i, missing, nBurst, origin))
+			}
+		}
+		out.stats["deliveries"] = n
+		out.stats["kind.burst"]++
+		out.stats["nodes"] = nn
+		out.nontriv = nn >= 3
+		return out
+	}
 	isTrx := kind == "trx"
 	var itemHash [32]byte
 	var vertex accountant.Vertex
 	ctxRun, stopRun := context.WithCancel(context.Background())
 	defer stopRun()
 	on := nw.nodes[origin]
+	var trxItem transaction.Transaction
 	if isTrx {
 		t, err := transaction.New("contract", spice.New(1, 0), []byte("data"), users[1].Address(), users[0])
 		if err != nil {
 			panic(err)
 		}
+		trxItem = t
 		itemHash = t.Hash
 		pt, _ := transformers.TrxToProtoTrx(t)
 		on.hip.SaveAwaitedTransaction(&t) // as notary.Propose does before handing it to the gossiper
@@ -476,109 +547,133 @@ func runScenario(seed int64, idx int, kind string) (out scenarioOut) {
 		out.human = append(out.human, fmt.Sprintf("corrupted copy (same hash, bad seal) handed to node %d -> err=%v", victim, err != nil))
 		poisoned = victim
 	}
-	for nw.qlen() > 0 && delivered < 400 {
-		i := rng.Intn(nw.qlen())
-		m := pop(i)
-		note := ""
-		// forged gossiper entries (C12): unsigned, signed for another item, signed by another key
-		if rng.Intn(3) == 0 {
-			victim := nw.nodes[rng.Intn(nn)]
-			var e *protobufcompiled.Gossiper
-			switch rng.Intn(3) {
-			case 0:
-				e = &protobufcompiled.Gossiper{Address: victim.w.Address(), Digest: make([]byte, 32), Signature: make([]byte, 64)}
-				note = " +forged(unsigned)"
-			case 1:
-				if rng.Intn(2) == 0 { // a signature this node has verified before, on the decoy item
-					e = proto.Clone(decoyEntry[victim.idx]).(*protobufcompiled.Gossiper)
-					note = " +forged(replayed entry of another item)"
-				} else {
-					var other [32]byte
-					rng.Read(other[:])
-					d, s := victim.w.Sign(gossip.VerifGossiperMessage(victim.w.Address(), other))
+	phase := func() string {
+		budget := delivered + 400
+		for nw.qlen() > 0 && delivered < budget {
+			i := rng.Intn(nw.qlen())
+			m := pop(i)
+			note := ""
+			// forged gossiper entries (C12): unsigned, signed for another item, signed by another key
+			if rng.Intn(3) == 0 {
+				victim := nw.nodes[rng.Intn(nn)]
+				var e *protobufcompiled.Gossiper
+				switch rng.Intn(3) {
+				case 0:
+					e = &protobufcompiled.Gossiper{Address: victim.w.Address(), Digest: make([]byte, 32), Signature: make([]byte, 64)}
+					note = " +forged(unsigned)"
+				case 1:
+					if rng.Intn(2) == 0 { // a signature this node has verified before, on the decoy item
+						e = proto.Clone(decoyEntry[victim.idx]).(*protobufcompiled.Gossiper)
+						note = " +forged(replayed entry of another item)"
+					} else {
+						var other [32]byte
+						rng.Read(other[:])
+						d, s := victim.w.Sign(gossip.VerifGossiperMessage(victim.w.Address(), other))
+						e = &protobufcompiled.Gossiper{Address: victim.w.Address(), Digest: d[:], Signature: s}
+						note = " +forged(other item)"
+					}
+				default:
+					d, s := users[2].Sign(gossip.VerifGossiperMessage(victim.w.Address(), itemHash))
 					e = &protobufcompiled.Gossiper{Address: victim.w.Address(), Digest: d[:], Signature: s}
-					note = " +forged(other item)"
+					note = " +forged(other key)"
 				}
-			default:
-				d, s := users[2].Sign(gossip.VerifGossiperMessage(victim.w.Address(), itemHash))
-				e = &protobufcompiled.Gossiper{Address: victim.w.Address(), Digest: d[:], Signature: s}
-				note = " +forged(other key)"
+				if m.vrx != nil {
+					m.vrx.Gossipers = append(m.vrx.Gossipers, e)
+				} else {
+					m.trx.Gossipers = append(m.trx.Gossipers, e)
+				}
+				forged++
 			}
-			if m.vrx != nil {
-				m.vrx.Gossipers = append(m.vrx.Gossipers, e)
-			} else {
-				m.trx.Gossipers = append(m.trx.Gossipers, e)
-			}
-			forged++
-		}
-		deliver(m, note)
-		if rng.Intn(5) == 0 { // the network duplicates the message
-			deliver(m, note+" (duplicate)")
-			out.stats["dup"]++
-		}
-	}
-	// ---- quiescence monitors
-	reach := map[int]bool{origin: true}
-	stack := []int{origin}
-	for len(stack) > 0 {
-		u := stack[len(stack)-1]
-		stack = stack[:len(stack)-1]
-		for _, v := range adj[u] {
-			if !reach[v] {
-				reach[v] = true
-				stack = append(stack, v)
+			deliver(m, note)
+			if rng.Intn(5) == 0 { // the network duplicates the message
+				deliver(m, note+" (duplicate)")
+				out.stats["dup"]++
 			}
 		}
-	}
-	for i := 0; i < nn; i++ {
-		if kind == "orphan" {
-			if i != origin && has(i) {
-				viol("C11", "admitted-without-parent", fmt.Sprintf("node %d admitted a vertex whose parent it does not hold", i))
-			}
-			continue
-		}
-		if reach[i] && !has(i) {
-			if i == poisoned {
-				viol("C12", "flash-poisoning", fmt.Sprintf("node %d saw a corrupted copy first and then dropped the genuine copies: it never admitted the vertex although it has an honest path to the origin", i))
-			} else {
-				viol("C11", "node-not-reached", fmt.Sprintf("node %d is reachable from origin %d but never admitted the item", i, origin))
+		// ---- quiescence monitors
+		reach := map[int]bool{origin: true}
+		stack := []int{origin}
+		for len(stack) > 0 {
+			u := stack[len(stack)-1]
+			stack = stack[:len(stack)-1]
+			for _, v := range adj[u] {
+				if !reach[v] {
+					reach[v] = true
+					stack = append(stack, v)
+				}
 			}
 		}
-	}
-	cnt := map[int]int{}
-	for _, p := range processedOrder {
-		cnt[p]++
-		if cnt[p] > 1 {
-			viol("C11", "admitted-twice", fmt.Sprintf("node %d admitted the item twice", p))
-		}
-	}
-	out.stats["deliveries"] = delivered
-	out.stats["forged_entries"] = forged
-	out.stats["nodes"] = nn
-	out.stats["kind."+kind]++
-	var tab []string
-	for i, a := range adj {
-		s := make([]string, len(a))
-		for k, x := range a {
-			s[k] = fmt.Sprint(x)
-		}
-		tab = append(tab, fmt.Sprintf("(%d, [%s])", i, strings.Join(s, ";")))
-	}
-	var fin []string
-	for i := 0; i < nn; i++ {
-		if has(i) {
-			fin = append(fin, fmt.Sprint(i))
-		}
-	}
-	var refusing []string
-	if kind == "orphan" {
 		for i := 0; i < nn; i++ {
-			if i != origin {
-				refusing = append(refusing, fmt.Sprint(i))
+			if kind == "orphan" {
+				if i != origin && has(i) {
+					viol("C11", "admitted-without-parent", fmt.Sprintf("node %d admitted a vertex whose parent it does not hold", i))
+				}
+				continue
+			}
+			if reach[i] && !has(i) {
+				if i == poisoned {
+					viol("C12", "flash-poisoning", fmt.Sprintf("node %d saw a corrupted copy first and then dropped the genuine copies: it never admitted the vertex although it has an honest path to the origin", i))
+				} else {
+					viol("C11", "node-not-reached", fmt.Sprintf("node %d is reachable from origin %d but never admitted the item", i, origin))
+				}
 			}
 		}
+		cnt := map[int]int{}
+		for _, p := range processedOrder {
+			cnt[p]++
+			if cnt[p] > 1 {
+				viol("C11", "admitted-twice", fmt.Sprintf("node %d admitted the item twice", p))
+			}
+		}
+		out.stats["deliveries"] = delivered
+		out.stats["forged_entries"] = forged
+		out.stats["nodes"] = nn
+		var tab []string
+		for i, a := range adj {
+			s := make([]string, len(a))
+			for k, x := range a {
+				s[k] = fmt.Sprint(x)
+			}
+			tab = append(tab, fmt.Sprintf("(%d, [%s])", i, strings.Join(s, ";")))
+		}
+		var fin []string
+		for i := 0; i < nn; i++ {
+			if has(i) {
+				fin = append(fin, fmt.Sprint(i))
+			}
+		}
+		var refusing []string
+		if kind == "orphan" {
+			for i := 0; i < nn; i++ {
+				if i != origin {
+					refusing = append(refusing, fmt.Sprint(i))
+				}
+			}
+		}
+		return fmt.Sprintf("GTrace [%s] %d [%s] [%s] %d%%nat [%s]", strings.Join(tab, ";"), origin, strings.Join(steps, ";\n  "), strings.Join(fin, ";"), nw.qlen(), strings.Join(refusing, ";"))
 	}
-	out.trace = fmt.Sprintf("GTrace [%s] %d [%s] [%s] %d%%nat [%s]", strings.Join(tab, ";"), origin, strings.Join(steps, ";\n  "), strings.Join(fin, ";"), nw.qlen(), strings.Join(refusing, ";"))
+	out.stats["kind."+kind]++
+	out.trace = phase()
+	if kind == "trx" && idx%2 == 0 {
+		// the awaited transaction is now sealed in a vertex at the origin (the normal contract flow) and the vertex is gossiped while
+		// the transaction's hash is still in every node's duplicate-suppression memory: it is a different item and must reach everybody
+		if v, err := on.ab.CreateLeaf(context.Background(), &trxItem); err == nil {
+			isTrx, vertex, itemHash = false, v, v.Hash
+			for _, n := range nw.nodes {
+				n.fwd = 0
+			}
+			processedOrder, steps = []int{origin}, nil
+			for k := range contacted {
+				delete(contacted, k)
+			}
+			contacted[origin] = true
+			go on.g.RunVertexGossip(ctxRun)
+			on.jug.SendVrx(&v)
+			nw.settle(originDests)
+			out.trace2 = phase()
+			out.stats["trx_then_vertex"]++
+		}
+	}
 	out.nontriv = delivered >= 2 && nn >= 3
 	return out
 }
@@ -614,6 +709,9 @@ func main() {
 		if i%9 == 5 {
 			kind = "orphan"
 		}
+		if i%18 == 1 {
+			kind = "burst"
+		}
 		wg.Add(1)
 		sem <- struct{}{}
 		go func(i int, kind string) {
@@ -641,6 +739,9 @@ func main() {
 	for _, o := range outs {
 		if o.trace != "" {
 			traces = append(traces, o.trace)
+		}
+		if o.trace2 != "" {
+			traces = append(traces, o.trace2)
 		}
 		sum.Evaluations += o.stats["deliveries"]
 		for k, v := range o.stats {
